@@ -15,6 +15,13 @@ Proof. induction l; intros; simpl; [ring | rewrite IHl; ring]. Qed.
 Lemma fold_mul_prod_map : forall (f : R -> R) l a, fold_left (fun s c => s * f c) l a = a * prod_map f l.
 Proof. induction l; intros; simpl; [ring | rewrite IHl; ring]. Qed.
 
+(* the vectorised spellings: sum([f c for c in x]), np.sum(f(x)), np.prod(f(x)) *)
+Lemma fold_plus_map_sum : forall (f : R -> R) l a, fold_left Rplus (map f l) a = a + sum_map f l.
+Proof. induction l; intros; simpl; [ring | rewrite IHl; ring]. Qed.
+
+Lemma fold_mult_map_prod : forall (f : R -> R) l a, fold_left Rmult (map f l) a = a * prod_map f l.
+Proof. induction l; intros; simpl; [ring | rewrite IHl; ring]. Qed.
+
 (* several accumulators updated independently: the fold of the tuple is the tuple of the folds *)
 Lemma fold_left_pair : forall {A B C} (f : A -> C -> A) (g : B -> C -> B) l a b,
   fold_left (fun st c => let '(a, b) := st in (f a c, g b c)) l (a, b) = (fold_left f l a, fold_left g l b).
